@@ -31,6 +31,8 @@ structure RK (s : St) (b : Book) : Prop where
   len : b.calls.length = s.th.length
   call : ∀ (t : Nat) (th : Th) (c : Call), s.th[t]? = some th → b.calls[t]? = some c → KRel th c
   pub : ∀ p, p ∈ b.pubP → (published s (.plain p)).isSome = true
+  born : ∀ (p : Nat) (pr : Prom), s.proms[p]? = some pr → pr.born = true →
+    ∃ e, pr.res = some (0, e) ∧ (p, e) ∈ b.bornP
 
 /-! ### how `Book.update` acts on the table of calls -/
 
@@ -50,6 +52,9 @@ theorem modify_get_ne (b : Book) (t u : Nat) (f : Call → Call) (h : u ≠ t) :
 theorem modify_other (b : Book) (t : Nat) (f : Call → Call) :
     (b.modify t f).pubP = b.pubP ∧ (b.modify t f).initDead = b.initDead ∧ (b.modify t f).nproms = b.nproms := by
   unfold Book.modify; split <;> simp
+
+theorem modify_bornP (b : Book) (t : Nat) (f : Call → Call) : (b.modify t f).bornP = b.bornP := by
+  unfold Book.modify; split <;> rfl
 
 theorem markDead_len (b : Book) (ds : List Nat) : (b.markDead ds).calls.length = b.calls.length := by
   simp [Book.markDead]
@@ -118,7 +123,7 @@ program counters of the same kind and doneness, with the monitor untouched -/
 theorem rk_local (s : St) (b : Book) (h : RK s b) (t : Nat) (th : Th) (ts : TS) (ht : s.th[t]? = some th)
     (hk : kindOf ts = kindOf th.ts) (hd : ts.isDone = th.ts.isDone) :
     RK (setTs s t th ts) b := by
-  refine ⟨by simp [setTs, h.len], ?_, ?_⟩
+  refine ⟨by simp [setTs, h.len], ?_, ?_, h.born⟩
   · intro u x c hu hc
     simp only [setTs] at hu
     rcases getElem?_set_cases s.th t u _ x hu with ⟨rfl, rfl⟩ | ⟨_, hx⟩
@@ -178,6 +183,10 @@ theorem published_mono_step (s s' : St) (e : Ev) (hi : Inv s) (hs : step s e = s
         simp only [ThOK, hts] at hok
         rw [hok.2.2] at h; cases h
       · simp only [setTs]; rw [published_set_ne s q p _ _ hpq]; exact h
+    | newpe q e' =>
+      simp only [step] at hs; split at hs <;> simp at hs; subst hs
+      exact published_proms_append s _ _ x h
+    | checkLike c ok => simp only [step] at hs; split at hs <;> simp at hs; subst hs; exact h
     | invSet t q v e' => simp only [step] at hs; split at hs <;> simp at hs; subst hs; exact h
     | invAwait t q k => simp only [step] at hs; split at hs <;> simp at hs; subst hs; exact h
     | invCSetP t q => simp only [step] at hs; split at hs <;> simp at hs; subst hs; exact h
@@ -253,6 +262,142 @@ end UtilModel.Promise
 
 namespace UtilModel.Promise
 open UtilModel
+
+/-- where a promise entry that was constructed pre-resolved comes from: it was there before,
+unchanged, or this step is its construction -/
+theorem born_entry_back (s s' : St) (e : Ev) (hi : Inv s) (hs : step s e = some s') (p : Nat) (pr' : Prom)
+    (hq : s'.proms[p]? = some pr') (hb : pr'.born = true) :
+    s.proms[p]? = some pr' ∨ (∃ e0, e = .newpe p e0 ∧ pr'.res = some (0, e0)) := by
+  cases e with
+  | newp q =>
+    simp only [step] at hs; split at hs <;> simp at hs; subst hs
+    rcases getElem?_snoc_cases _ _ _ _ hq with ⟨_, hx⟩ | ⟨_, rfl⟩
+    · exact Or.inl hx
+    · cases hb
+  | newpe q e0 =>
+    simp only [step] at hs; split at hs <;> simp at hs
+    rename_i hql
+    subst hs
+    rcases getElem?_snoc_cases _ _ _ _ hq with ⟨_, hx⟩ | ⟨hpl, rfl⟩
+    · exact Or.inl hx
+    · exact Or.inr ⟨e0, by rw [hql, hpl], rfl⟩
+  | checkLike c ok => simp only [step] at hs; split at hs <;> simp at hs; subst hs; exact Or.inl hq
+  | swap t =>
+    simp only [step] at hs
+    split at hs <;> try simp at hs
+    split at hs <;> try simp at hs
+    rename_i q v e' hts
+    split at hs <;> try simp at hs
+    rename_i pr hqq
+    split at hs <;> simp at hs <;> subst hs
+    · exact Or.inl hq
+    · rename_i hw
+      simp only [setTs] at hq
+      rcases getElem?_set_cases s.proms q p _ pr' hq with ⟨_, rfl⟩ | ⟨_, hx⟩
+      · simp at hb; simp [hb] at hw
+      · exact Or.inl hx
+  | publish t =>
+    simp only [step] at hs
+    split at hs <;> try simp at hs
+    rename_i th ht
+    split at hs <;> try simp at hs
+    rename_i q v e' hts
+    split at hs <;> simp at hs
+    rename_i pr hqq
+    subst hs
+    simp only [setTs] at hq
+    rcases getElem?_set_cases s.proms q p _ pr' hq with ⟨_, rfl⟩ | ⟨_, hx⟩
+    · exfalso
+      simp at hb
+      have hok := hi.th t th ht
+      simp only [ThOK, hts] at hok
+      have hw := hok.2.1
+      simp [winnerOf, hqq] at hw
+      have := ((hi.pr q pr hqq).2.1 hb).1
+      rw [hw] at this; cases this
+    · exact Or.inl hx
+  | invSet t q v e' => simp only [step] at hs; split at hs <;> simp at hs; subst hs; exact Or.inl hq
+  | invAwait t q k => simp only [step] at hs; split at hs <;> simp at hs; subst hs; exact Or.inl hq
+  | invCSetP t q => simp only [step] at hs; split at hs <;> simp at hs; subst hs; exact Or.inl hq
+  | invCRes t v e' => simp only [step] at hs; split at hs <;> simp at hs; subst hs; exact Or.inl hq
+  | invCAwait t k => simp only [step] at hs; split at hs <;> simp at hs; subst hs; exact Or.inl hq
+  | quiesce bb B => simp only [step] at hs; split at hs <;> simp at hs; subst hs; exact Or.inl hq
+  | envCancel t => simp only [step] at hs; split at hs <;> simp at hs; subst hs; exact Or.inl hq
+  | envFire t f =>
+    simp only [step] at hs; split at hs <;> try simp at hs
+    obtain ⟨_, rfl⟩ := hs; exact Or.inl hq
+  | retSet t bb =>
+    simp only [step] at hs
+    split at hs <;> try simp at hs
+    split at hs <;> try simp at hs
+    obtain ⟨_, rfl⟩ := hs; exact Or.inl hq
+  | retAwait t v e' =>
+    simp only [step] at hs
+    split at hs <;> try simp at hs
+    split at hs <;> try simp at hs
+    obtain ⟨_, rfl⟩ := hs; exact Or.inl hq
+  | retCSetP t =>
+    simp only [step] at hs
+    split at hs <;> try simp at hs
+    split at hs <;> try simp at hs
+    subst hs; exact Or.inl hq
+  | retCRes t =>
+    simp only [step] at hs
+    split at hs <;> try simp at hs
+    split at hs <;> try simp at hs
+    subst hs; exact Or.inl hq
+  | awSel t br =>
+    simp only [step] at hs
+    split at hs <;> try simp at hs
+    split at hs <;> try simp at hs
+    cases br <;> (try simp only at hs) <;> (try split at hs) <;> simp at hs <;> subst hs <;> exact Or.inl hq
+  | cWCS t =>
+    simp only [step] at hs
+    split at hs <;> try simp at hs
+    split at hs <;> try simp at hs
+    · split at hs <;> simp at hs <;> subst hs <;> exact Or.inl hq
+    · subst hs; exact Or.inl hq
+  | cSample t =>
+    simp only [step] at hs
+    split at hs <;> try simp at hs
+    split at hs <;> try simp at hs
+    split at hs <;> simp at hs <;> subst hs <;> exact Or.inl hq
+  | cNilSel t br =>
+    simp only [step] at hs
+    split at hs <;> try simp at hs
+    split at hs <;> try simp at hs
+    cases br <;> (try simp only at hs) <;> (try split at hs) <;> simp at hs
+    · subst hs; exact Or.inl hq
+    · subst hs; exact Or.inl hq
+    · subst hs; exact Or.inl hq
+  | cInnerSel t br =>
+    simp only [step] at hs
+    split at hs <;> try simp at hs
+    split at hs <;> try simp at hs
+    cases br <;> (try simp only at hs) <;> (try split at hs) <;> simp at hs <;> subst hs <;> exact Or.inl hq
+  | cChk1 t =>
+    simp only [step] at hs
+    split at hs <;> try simp at hs
+    split at hs <;> try simp at hs
+    split at hs <;> simp at hs <;> subst hs <;> exact Or.inl hq
+  | cChk2 t =>
+    simp only [step] at hs
+    split at hs <;> try simp at hs
+    split at hs <;> try simp at hs
+    split at hs <;> simp at hs <;> subst hs <;> exact Or.inl hq
+
+/-- the `born` part of the bookkeeping relation follows every step on which the monitor's list of
+born promises does not shrink (and grows at a construction) -/
+theorem rk_born_step (s s' : St) (e : Ev) (b b' : Book) (hi : Inv s) (h : RK s b) (hs : step s e = some s')
+    (hsub : ∀ x, x ∈ b.bornP → x ∈ b'.bornP)
+    (hnew : ∀ p e0, e = .newpe p e0 → (p, e0) ∈ b'.bornP) :
+    ∀ (p : Nat) (pr : Prom), s'.proms[p]? = some pr → pr.born = true →
+      ∃ e, pr.res = some (0, e) ∧ (p, e) ∈ b'.bornP := by
+  intro p pr hq hb
+  rcases born_entry_back s s' e hi hs p pr hq hb with h0 | ⟨e0, he, hr⟩
+  · obtain ⟨e1, h1, h2⟩ := h.born p pr h0 hb
+    exact ⟨e1, h1, hsub _ h2⟩
+  · exact ⟨e0, hr, hnew p e0 he⟩
 
 /-- what an internal step does to the table of calls: one call moves to another program counter of
 the same kind; neither is a finished call -/
@@ -346,7 +491,8 @@ theorem internal_shape (s s' : St) (e : Ev) (hs : step s e = some s') (ho : e.ob
 theorem rk_internal (s s' : St) (e : Ev) (b : Book) (hi : Inv s) (h : RK s b)
     (hs : step s e = some s') (ho : e.obs = none) : RK s' b := by
   obtain ⟨t, th, ts, _, ht, hth, hk, hd1, hd2⟩ := internal_shape s s' e hs ho
-  refine ⟨by rw [hth]; simp [h.len], ?_, ?_⟩
+  refine ⟨by rw [hth]; simp [h.len], ?_, ?_,
+    rk_born_step s s' e b b hi h hs (fun _ hx => hx) (by intro p e0 he; subst he; simp [Ev.obs] at ho)⟩
   · intro u x c hu hc
     rw [hth] at hu
     rcases getElem?_set_cases s.th t u _ x hu with ⟨rfl, rfl⟩ | ⟨_, hx⟩
@@ -366,8 +512,10 @@ open UtilModel
 
 theorem rk_congr (s s' : St) (b b' : Book) (h : RK s b) (hth : s'.th = s.th) (hc : b'.calls = b.calls)
     (hp : b'.pubP = b.pubP)
-    (hm : ∀ p x, published s (.plain p) = some x → published s' (.plain p) = some x) : RK s' b' := by
-  refine ⟨by rw [hc, hth]; exact h.len, ?_, ?_⟩
+    (hm : ∀ p x, published s (.plain p) = some x → published s' (.plain p) = some x)
+    (hb : ∀ (p : Nat) (pr : Prom), s'.proms[p]? = some pr → pr.born = true →
+      ∃ e, pr.res = some (0, e) ∧ (p, e) ∈ b'.bornP) : RK s' b' := by
+  refine ⟨by rw [hc, hth]; exact h.len, ?_, ?_, hb⟩
   · intro u x c hu hcu; rw [hth] at hu; rw [hc] at hcu; exact h.call u x c hu hcu
   · intro p hpp
     rw [hp] at hpp
@@ -378,7 +526,7 @@ theorem rk_congr (s s' : St) (b b' : Book) (h : RK s b) (hth : s'.th = s.th) (hc
 
 theorem rk_pub (s : St) (b : Book) (h : RK s b) (p : Nat) (hp : (published s (.plain p)).isSome = true) :
     RK s { b with pubP := p :: b.pubP } := by
-  refine ⟨h.len, h.call, ?_⟩
+  refine ⟨h.len, h.call, ?_, h.born⟩
   intro q hq
   simp only [List.mem_cons] at hq
   rcases hq with rfl | hq
@@ -387,7 +535,7 @@ theorem rk_pub (s : St) (b : Book) (h : RK s b) (p : Nat) (hp : (published s (.p
 
 theorem rk_append (s : St) (b : Book) (h : RK s b) (nt : Th) (nc : Call) (hk : KRel nt nc) :
     RK { s with th := s.th ++ [nt] } { b with calls := b.calls ++ [nc] } := by
-  refine ⟨by simp [h.len], ?_, ?_⟩
+  refine ⟨by simp [h.len], ?_, ?_, h.born⟩
   · intro u x c hu hc
     simp only at hu hc
     rcases getElem?_snoc_cases _ _ _ _ hu with ⟨hul, hx⟩ | ⟨hul, rfl⟩
@@ -402,7 +550,7 @@ theorem rk_append (s : St) (b : Book) (h : RK s b) (nt : Th) (nc : Call) (hk : K
 theorem rk_modify (s : St) (b : Book) (h : RK s b) (t : Nat) (th th' : Th) (f : Call → Call)
     (ht : s.th[t]? = some th) (hf : ∀ c, KRel th c → KRel th' (f c)) :
     RK { s with th := s.th.set t th' } (b.modify t f) := by
-  refine ⟨by simp [modify_len, h.len], ?_, ?_⟩
+  refine ⟨by simp [modify_len, h.len], ?_, ?_, by rw [modify_bornP]; exact h.born⟩
   · intro u x c hu hc
     simp only at hu
     rcases getElem?_set_cases s.th t u _ x hu with ⟨rfl, rfl⟩ | ⟨hne, hx⟩
@@ -418,7 +566,7 @@ theorem rk_modify (s : St) (b : Book) (h : RK s b) (t : Nat) (th th' : Th) (f : 
 
 theorem rk_markDead (s : St) (b : Book) (h : RK s b) (ds : List Nat) (idd : Bool) :
     RK s { b.markDead ds with initDead := idd } := by
-  refine ⟨by simp [markDead_len, h.len], ?_, ?_⟩
+  refine ⟨by simp [markDead_len, h.len], ?_, ?_, h.born⟩
   · intro u x c hu hc
     simp only at hc
     rw [markDead_get] at hc
@@ -437,7 +585,7 @@ theorem rk_markDead (s : St) (b : Book) (h : RK s b) (ds : List Nat) (idd : Bool
 theorem rk_addWriter (s : St) (b : Book) (h : RK s b) (nt : Th) (nc : Call) (tgt : Option PRef)
     (hk : KRel nt { nc with preds := b.returnedWriters }) :
     RK { s with th := s.th ++ [nt] } (b.addWriter nc tgt) := by
-  refine ⟨by simp [addWriter_len, h.len], ?_, ?_⟩
+  refine ⟨by simp [addWriter_len, h.len], ?_, ?_, h.born⟩
   · intro u x c hu hc
     simp only at hu
     rcases getElem?_snoc_cases _ _ _ _ hu with ⟨hul, hx⟩ | ⟨hul, rfl⟩
@@ -457,7 +605,7 @@ theorem rk_addWriter (s : St) (b : Book) (h : RK s b) (nt : Th) (nc : Call) (tgt
     have := h.pub p this; simpa [published] using this
 
 /-- the call that published `(v, e)` on plain promise `p` is call `v-1`, a `SetResult` on `p` -/
-theorem published_setter (s : St) (hi : Inv s) (p v : Nat) (e : Err)
+theorem published_setter (s : St) (hi : Inv s) (p v : Nat) (e : Err) (hv : 1 ≤ v)
     (h : published s (.plain p) = some (v, e)) :
     ∃ th e', s.th[v - 1]? = some th ∧ kindOf th.ts = .set p e' ∧ 1 ≤ v := by
   simp only [published] at h
@@ -465,8 +613,14 @@ theorem published_setter (s : St) (hi : Inv s) (p v : Nat) (e : Err)
   | none => simp [hp] at h
   | some pr =>
     simp [hp] at h
-    obtain ⟨h1, h2⟩ := hi.pr p pr hp
-    obtain ⟨hw, hv⟩ := h1 v e h
+    obtain ⟨h1, h1b, h2⟩ := hi.pr p pr hp
+    have hbf : pr.born = false := by
+      cases hb : pr.born with
+      | false => rfl
+      | true =>
+        obtain ⟨_, e0, he0⟩ := h1b hb
+        rw [h] at he0; cases he0; omega
+    obtain ⟨hw, _⟩ := h1 v e h hbf
     obtain ⟨th, hth, hws⟩ := h2 (v - 1) hw
     rcases hws with ⟨e', hh⟩ | ⟨e', hh⟩ | ⟨e', hh⟩ <;> exact ⟨th, e', hth, by simp [hh, kindOf], hv⟩
 
@@ -493,10 +647,29 @@ theorem rk_obs (s s' : St) (e : Ev) (o : Obs) (b : Book) (hi : Inv s) (h : RK s 
     have hs0 := hs
     simp only [step] at hs; split at hs <;> simp at hs; subst hs
     exact rk_congr s _ b _ h rfl rfl rfl (fun p x hx => mono (.plain p) x hx)
+      (rk_born_step s _ _ b _ hi h hs0 (fun _ hx => hx) (by intro p e0 he; cases he))
+  | newpe p e' =>
+    simp [Ev.obs] at ho; subst ho
+    have hs0 := hs
+    simp only [step] at hs; split at hs <;> simp at hs
+    rename_i hp
+    subst hs
+    have hbn := rk_born_step s _ _ b (b.update (.newpe p e')) hi h hs0
+      (fun x hx => by simp [Book.update, hx])
+      (by intro q e0 he; cases he; simp [Book.update])
+    have h1 : RK { s with proms := s.proms ++ [{ res := some (0, e'), born := true }] }
+        { b with bornP := (p, e') :: b.bornP } :=
+      rk_congr s _ b _ h rfl rfl rfl (fun p x hx => mono (.plain p) x hx) hbn
+    have h2 := rk_pub _ _ h1 p (by subst hp; simp [published])
+    exact ⟨h2.len, h2.call, h2.pub, hbn⟩
+  | checkLike c ok =>
+    simp [Ev.obs] at ho; subst ho
+    simp only [step] at hs; split at hs <;> simp at hs; subst hs
+    exact h
   | quiesce bb B =>
     simp [Ev.obs] at ho; subst ho
     simp only [step] at hs; split at hs <;> simp at hs; subst hs
-    refine ⟨by simp [Book.update, resetSeen_len, h.len], ?_, ?_⟩
+    refine ⟨by simp [Book.update, resetSeen_len, h.len], ?_, ?_, h.born⟩
     · intro u x c hu hc
       simp only [Book.update] at hc
       rw [resetSeen_get] at hc
@@ -590,7 +763,7 @@ theorem rk_obs (s s' : St) (e : Ev) (o : Obs) (b : Book) (hi : Inv s) (h : RK s 
           have hok := hi.th t th ht
           have key : ∀ p' e1, published s (.plain p') = some (v, e1) → p' = p := by
             intro p' e1 hp'
-            obtain ⟨thw, ew', hthw, hkw, _⟩ := published_setter s hi p' v e1 hp'
+            obtain ⟨thw, ew', hthw, hkw, _⟩ := published_setter s hi p' v e1 hv1 hp'
             have := (h.call (v - 1) thw w hthw hw).kind
             rw [hwk, hkw] at this
             cases this; rfl
@@ -598,7 +771,7 @@ theorem rk_obs (s s' : St) (e : Ev) (o : Obs) (b : Book) (hi : Inv s) (h : RK s 
             cases o with
             | some p' =>
               simp only [ThOK, hts] at hok
-              rcases hok with ⟨_, h2⟩ | ⟨h2, _⟩
+              rcases hok with h2 | ⟨h2, _⟩
               · exact ⟨p', e', h2⟩
               · omega
             | none =>
